@@ -568,8 +568,24 @@ def r9(idx, rep):
     it.inline |= {"Tally._store"}
     rep.analysed(ft)
     ps = it.run_program(program, st)
-    got = ps[0].final_store[VARS].get("tally_color") if len(ps) == 1 else None
-    rep.check(got == {"red": 3, "blue": 1}, "R9", f"{ft.file}::Tally sequence table", f"tally_color = {got}; documented {{'red': 3, 'blue': 1}} (blank values are not tallied)", K.where(ft, ft.node))
+    got = ps[0].final_store[VARS] if len(ps) == 1 else None
+    rep.check(got == {"tally_color": {"red": 3, "blue": 1}}, "R9", f"{ft.file}::Tally sequence table",
+              f"variables = {got}; documented {{'tally_color': {{'red': 3, 'blue': 1}}}} and nothing else (blank values are not tallied; a one-argument tally keeps no combined count)", K.where(ft, ft.node))
+    # tally(#a, #b): one count per argument plus the combined a|b count under 'tally'
+    pair = {}
+    it, st = _var_interp(idx, "Tally", extra_handlers={"self.siblings": lambda i, c, r, a, k: [Obj("h"), Obj("g")], "self.first_non_term_qualifier": lambda i, c, r, a, k: a[0] if a else None},
+                         store={"h.name": "color", "g.name": "size"})
+    it.handlers[".to_value"] = lambda i, c, r, a, k: pair["v"][0 if r.name == "h" else 1]
+
+    def setup_pair(it_, line):
+        pair["v"] = line
+
+    ft2, program = _lines_program(idx, "Tally", "_produce_value", [("red", "S"), ("red", "L"), ("blue", "S"), ("red", "S")], setup_pair)
+    it.inline |= {"Tally._store"}
+    ps = it.run_program(program, st)
+    got = ps[0].final_store[VARS] if len(ps) == 1 else None
+    want = {"tally_color": {"red": 3, "blue": 1}, "tally_size": {"S": 3, "L": 1}, "tally": {"red|S": 2, "red|L": 1, "blue|S": 1}}
+    rep.check(got == want, "R9", f"{ft.file}::Tally two-argument sequence table", f"variables = {got}; documented {want}", K.where(ft, ft.node))
     # ---- sum(#n): running sum
     it, st = _var_interp(idx, "Sum", children=[C("c0", value=None)], extra_handlers={"self.first_non_term_qualifier": lambda i, c, r, a, k: a[0] if a else None},
                          store={"self.name": "sum"})
